@@ -196,6 +196,7 @@ func (cl *Client) WriteLoop() {
 	for {
 		select {
 		case pk := <-cl.State.outbound:
+			verifAt("loop.dequeued", cl)
 			if err := cl.WritePacket(*pk); err != nil {
 				// TODO : Figure out what to do with error
 				cl.ops.log.Debug("failed publishing packet", "error", err, "client", cl.ID, "packet", pk)
@@ -617,6 +618,7 @@ func (cl *Client) WritePacket(pk packets.Packet) error {
 		return packets.ErrPacketTooLarge // [MQTT-3.1.2-24] [MQTT-3.1.2-25]
 	}
 
+	verifAt("write.encoded", cl)
 	n, err := func() (int64, error) {
 		cl.Lock()
 		defer cl.Unlock()
@@ -647,6 +649,7 @@ func (cl *Client) WritePacket(pk packets.Packet) error {
 		err = cl.flushOutbuf()
 		return int64(n), err
 	}()
+	verifAt("write.unlocked", cl)
 	if err != nil {
 		return err
 	}
